@@ -418,6 +418,198 @@ def fold_constants(trees, base, log):
                 log.append(f'N1 {mname}: class constant {cn.name}.{name} = {_txt(val)} folded into {rep.count + rep2.count} use(s)')
 
 
+def expand_constant_sets(trees, base, log):
+    """N1b.  `X in GROUP` / `X not in GROUP`, GROUP a new module- or class-level constant bound once to a literal collection of enum
+    members / constants and used for membership tests only  ->  the chain of `==` the baseline writes.  When GROUP holds more than
+    half of the members of one enum and X is a field that only ever holds members of that enum, the chain is written over the
+    complement (`not (X == a or X == b)`): over a closed enum both say the same, and it is the form the baseline uses."""
+    enums = {}
+    for tree in trees.values():
+        for c in tree.body:
+            if isinstance(c, ast.ClassDef) and any(_txt(b) in ('enum.Enum', 'Enum', 'enum.IntEnum', 'IntEnum') for b in c.bases):
+                ms = [t.id for st in c.body if isinstance(st, ast.Assign) for t in st.targets if isinstance(t, ast.Name)]
+                enums[c.name] = ms
+    if not enums:
+        return
+    field_vals = {}                                    # attribute name -> set of texts stored
+    for tree in trees.values():
+        for n in ast.walk(tree):
+            if isinstance(n, (ast.Assign, ast.AnnAssign)) and getattr(n, 'value', None) is not None:
+                for t in (n.targets if isinstance(n, ast.Assign) else [n.target]):
+                    if isinstance(t, ast.Attribute):
+                        field_vals.setdefault(t.attr, set()).add(_txt(n.value))
+            elif isinstance(n, ast.AugAssign) and isinstance(n.target, ast.Attribute):
+                field_vals.setdefault(n.target.attr, set()).add('<aug>')
+    props = _property_backing(trees)
+
+    def enum_of_field(x):
+        """the enum whose members are the only values ever stored in the field read by x"""
+        if not (isinstance(x, ast.Attribute) and _txt(x.value) == 'self'):
+            return None
+        a = x.attr
+        if a in props:
+            bk = props[a]
+            if len(set(bk)) != 1 or bk[0] is None:
+                return None
+            a = bk[0]
+        vals = field_vals.get(a)
+        if not vals:
+            return None
+        owners = {v.split('.')[0] for v in vals if '.' in v and v.split('.')[0] in enums and v.split('.', 1)[1] in enums[v.split('.')[0]]}
+        if len(owners) == 1 and all('.' in v and v.split('.')[0] in owners and v.split('.', 1)[1] in enums[v.split('.')[0]] for v in vals):
+            return next(iter(owners))
+        return None
+
+    def literal_members(v):
+        if isinstance(v, ast.Call) and _txt(v.func) in ('frozenset', 'set', 'tuple', 'list') and len(v.args) == 1 and not v.keywords:
+            v = v.args[0]
+        if not isinstance(v, (ast.Set, ast.Tuple, ast.List)) or not v.elts or len(v.elts) > 12:
+            return None
+        for e in v.elts:
+            if not ((isinstance(e, ast.Attribute) and isinstance(e.value, ast.Name) and e.value.id in enums and e.attr in enums[e.value.id])
+                    or _pure_const_expr(e)):
+                return None
+        return list(v.elts)
+
+    for mname, tree in trees.items():
+        b = base.get(mname, {'consts': [], 'funcs': {}, 'classes': {}})
+        scopes = [(None, tree)] + [(c, c) for c in tree.body if isinstance(c, ast.ClassDef)]
+        for cls, scope in scopes:
+            known = b['consts'] if cls is None else b['classes'].get(cls.name, {'consts': []})['consts']
+            for st in list(scope.body):
+                name, val = _single_name_assign(st)
+                if name is None or name in known or name.startswith('__'):
+                    continue
+                elts = literal_members(val)
+                if elts is None:
+                    continue
+
+                def is_ref(x):
+                    if cls is None:
+                        return isinstance(x, ast.Name) and x.id == name
+                    return isinstance(x, ast.Attribute) and x.attr == name and (_txt(x.value) in ('self', 'cls', 'type(self)', 'self.__class__', cls.name))
+                refs, member_uses = [], []
+                stores = 0
+                for t in trees.values():
+                    for n in ast.walk(t):
+                        if isinstance(n, ast.Name) and n.id == name and isinstance(n.ctx, (ast.Store, ast.Del)):
+                            stores += 1
+                        elif isinstance(n, ast.Attribute) and n.attr == name and isinstance(n.ctx, (ast.Store, ast.Del)):
+                            stores += 2
+                        elif isinstance(n, ast.ImportFrom) and any(a.name == name for a in n.names):
+                            stores += 2
+                        elif isinstance(n, (ast.Name, ast.Attribute)) and isinstance(n.ctx, ast.Load) and is_ref(n) and (cls is not None or t is tree):
+                            refs.append(n)
+                        if isinstance(n, ast.Compare) and len(n.ops) == 1 and isinstance(n.ops[0], (ast.In, ast.NotIn)) and is_ref(n.comparators[0]) \
+                                and (cls is not None or t is tree):
+                            member_uses.append(n)
+                if stores != 1 or not refs or len(refs) != len(member_uses) or not all(_pure_read(u.left) for u in member_uses):
+                    continue
+                owners = {e.value.id for e in elts if isinstance(e, ast.Attribute)}
+                repl = {}
+                for u in member_uses:
+                    x = u.left
+                    use = elts
+                    flip = False
+                    if len(owners) == 1 and all(isinstance(e, ast.Attribute) for e in elts):
+                        en = next(iter(owners))
+                        have = {e.attr for e in elts}
+                        if 2 * len(have) > len(enums[en]) and enum_of_field(x) == en:
+                            use = [ast.Attribute(value=ast.Name(id=en, ctx=ast.Load()), attr=m, ctx=ast.Load()) for m in enums[en] if m not in have]
+                            flip = True
+                    negative = isinstance(u.ops[0], ast.NotIn) != flip
+                    if not use:
+                        new = ast.Constant(value=not negative)
+                    else:
+                        cmps = [ast.Compare(left=copy.deepcopy(x), ops=[ast.NotEq() if negative else ast.Eq()], comparators=[copy.deepcopy(e)]) for e in use]
+                        new = cmps[0] if len(cmps) == 1 else ast.BoolOp(op=ast.And() if negative else ast.Or(), values=cmps)
+                    ast.copy_location(new, u)
+                    repl[id(u)] = new
+                if repl:
+                    class _R(ast.NodeTransformer):
+                        def visit_Compare(self, node):
+                            self.generic_visit(node)
+                            return repl.get(id(node), node)
+                    for t in trees.values():
+                        _R().visit(t)
+                scope.body.remove(st)
+                log.append(f'N1b {mname}: membership in constant group {name} ({len(elts)} members) expanded in {len(member_uses)} test(s)')
+
+
+def instantiate_method_factories(trees, base, log):
+    """N2f.  `name = factory(c1, ..)` in a class body, `factory` a new module-level function that only defines one inner function (or a
+    lambda) over its parameters and returns it, the arguments constants or dotted names  ->  the inner function as a method `name`
+    with the parameters replaced by the arguments.  A closure over never re-bound parameters is the same function."""
+    for mname, tree in trees.items():
+        b = base.get(mname, {'consts': [], 'funcs': {}, 'classes': {}})
+        factories = {}
+        for fn in tree.body:
+            if not isinstance(fn, ast.FunctionDef) or fn.name in b['funcs'] or fn.decorator_list:
+                continue
+            a = fn.args
+            if a.vararg or a.kwarg or a.kwonlyargs or a.posonlyargs:
+                continue
+            body = _body(fn)
+            inner = None
+            if len(body) == 2 and isinstance(body[0], ast.FunctionDef) and isinstance(body[1], ast.Return) and isinstance(body[1].value, ast.Name) \
+                    and body[1].value.id == body[0].name and not body[0].decorator_list:
+                inner = body[0]
+            elif len(body) == 1 and isinstance(body[0], ast.Return) and isinstance(body[0].value, ast.Lambda):
+                lam = body[0].value
+                inner = ast.FunctionDef(name='<lambda>', args=lam.args, body=[ast.Return(value=lam.body)], decorator_list=[], returns=None, type_comment=None,
+                                        type_params=[])
+                ast.copy_location(inner, lam)
+                ast.copy_location(inner.body[0], lam)
+            if inner is None:
+                continue
+            params = [x.arg for x in a.args]
+            # the parameters are never re-bound inside (neither in the factory nor in the inner function), no nonlocal
+            rebound = any((isinstance(x, ast.Name) and isinstance(x.ctx, (ast.Store, ast.Del)) and x.id in params) or isinstance(x, (ast.Nonlocal, ast.Global))
+                          for x in ast.walk(inner)) or any(x.arg in params for x in ast.walk(inner.args) if isinstance(x, ast.arg))
+            if rebound:
+                continue
+            factories[fn.name] = (fn, inner, params, a.defaults)
+        if not factories:
+            continue
+        used = {k: 0 for k in factories}
+        for c in [c for c in tree.body if isinstance(c, ast.ClassDef)]:
+            for i, st in enumerate(list(c.body)):
+                name, val = _single_name_assign(st)
+                if name is None or not (isinstance(val, ast.Call) and isinstance(val.func, ast.Name) and val.func.id in factories):
+                    continue
+                fn, inner, params, defaults = factories[val.func.id]
+                if val.keywords and any(k.arg is None for k in val.keywords):
+                    continue
+                m = {}
+                ok = len(val.args) <= len(params)
+                for p, arg in zip(params, val.args):
+                    m[p] = arg
+                for k in val.keywords:
+                    if k.arg in params and k.arg not in m:
+                        m[k.arg] = k.value
+                    else:
+                        ok = False
+                for p, d in zip(params[len(params) - len(defaults):], defaults):
+                    m.setdefault(p, d)
+                if not ok or set(m) != set(params):
+                    continue
+                if not all(isinstance(v, ast.Constant) or (_pure_read(v) and all(isinstance(x, (ast.Name, ast.Attribute, ast.Load)) for x in ast.walk(v)))
+                           for v in m.values()):
+                    continue
+                meth = copy.deepcopy(inner)
+                meth.name = name
+                meth = _Subst(m, {}).visit(meth)
+                ast.copy_location(meth, st)
+                c.body[c.body.index(st)] = meth
+                used[val.func.id] += 1
+                log.append(f'N2f {mname}: {c.name}.{name} = {val.func.id}({", ".join(_txt(x) for x in val.args)}) instantiated as a method')
+        for k, n in used.items():
+            if n:
+                still = any(isinstance(x, ast.Name) and x.id == k and isinstance(x.ctx, ast.Load) for t in trees.values() for x in ast.walk(t))
+                if not still:
+                    tree.body.remove(factories[k][0])
+
+
 # =================================================================================================== N2 helpers
 class _Subst(ast.NodeTransformer):
     def __init__(self, mapping, rename):
@@ -3112,12 +3304,14 @@ def run(trees, baseline=None):
     log = []
     undo_renames(trees, base, log)
     match_to_if(trees, log)
+    instantiate_method_factories(trees, base, log)
     OBSERVERS.clear()
     OBSERVERS.update(observer_methods(trees))
     strip_noops(trees, base, log)
     defaults_into_init(trees, base, log)
     from .consteval import fold_table_helpers
     fold_table_helpers(trees, base, log)
+    expand_constant_sets(trees, base, log)
     fold_constants(trees, base, log)
     NON_NONE_CLASS_CONSTANTS.clear()
     for t in trees.values():
